@@ -418,10 +418,11 @@ def run(tier: str, only=None) -> core.Result:
     keys = [json.dumps(v, sort_keys=True) for v in versions]
     if len(set(keys)) != len(keys):
         raise core.HarnessError("misc version table has duplicates")
+    # the parts with the most varied signatures first (the runner keeps the first 400 violations)
     parts = {
-        "grid": grid_configs(tier),
         "misc": [{"part": "misc", "v": i} for i in range(-1, len(versions))],
         "pairing": pairing_configs(tier),
+        "grid": grid_configs(tier),
     }
     for name, cfgs in parts.items():
         if only and name not in only:
